@@ -731,6 +731,13 @@ class Magnetization(MagicProperties):
         if val is not None:
             self.arrow.size = val
 
+    def as_dict(self, flatten=False, separator="."):
+        """Dictionary of the properties, without the deprecated `size` alias: it mirrors
+        `arrow.size` and would write the old value back when the dictionary is re-applied"""
+        dict_ = super().as_dict(flatten=flatten, separator=separator)
+        dict_.pop("size", None)
+        return dict_
+
     @property
     def color(self):
         """Color properties showing the magnetization direction (for the plotly backend).
